@@ -4,7 +4,10 @@ pub fn inv<const B: Word>(&self, f: &Repr<B>) -> Rounded<FBig<R, B>>
     requires
         B >= 2,
         finite(*f), self.precision != 0, f.significand.v() != 0,    // documented panics otherwise
-        self.precision < 0x1000_0000_0000_0000, ndigits(B as int, f.significand.v()) < 0x1000_0000_0000_0000,
+        // resource limit: exponent overflow is a documented panic (C16), not modelled: precision and digit counts below
+        // 2^56 keep the digit shifts (<= digits + precision) within `pos_room` (bit position `pos * log2(B)` in usize)
+        // and leave `Repr::new` room for the exponent
+        self.precision < 0x100_0000_0000_0000, ndigits(B as int, f.significand.v()) < 0x100_0000_0000_0000,
         -0x1000_0000_0000_0000 < f.exponent < 0x1000_0000_0000_0000,
     ensures
         div_post(R::md(), B as int, self.precision as nat, 1, f.significand.v(), -f.exponent, map_repr(ret)),
